@@ -11,14 +11,15 @@ from . import c16facts
 
 ID = 'C16'
 HERE = os.path.dirname(os.path.abspath(__file__))
-CASES = {'quick': 9000, 'thorough': 300000}
+CASES = {'quick': 8000, 'thorough': 200000}
 PARALLEL = True
 RULE = ('request paths assembled from traversal-significant pieces (.., ., %2e%2e, %2f, \\, %5c, %00, //, absolute '
         'paths, overlong UTF-8, double encoding, names of files outside the root) mixed with names inside the root, '
         'Unicode look-alikes of . .. / \\ and of existing names (computed from unicodedata: every character some normal form '
-        'maps onto them, ignorable characters, fullwidth / other-case names), raw / percent-encoded once / twice, x 6 mountings (add_static_view route, catch-all *subpath route, plain '
+        'maps onto them, ignorable characters, fullwidth / other-case names), raw / percent-encoded once / twice, x 7 mountings (add_static_view route, catch-all *subpath route, plain '
         'view on PATH_INFO, plain view with a given request.subpath, a route with a {subpath:.*} placeholder whose matched STRING the traverser splits, '
-        'a view named "static" found by traversal -- also as /@@static/..) x filesystem and package-relative roots x optional SCRIPT_NAME x '
+        'a view named "static" found by traversal -- also as /@@static/.. and below an X-VHM-ROOT virtual root --, a route with a default '
+        '{subpath} placeholder = one piece without "/") x filesystem and package-relative roots x optional SCRIPT_NAME x '
         'Accept-Encoding values x content_encodings (package roots given as pkg:dir, as a relative dir with package_name=, and as a '
         'relative dir resolved against the package of the module that creates the view / the Configurator), plus all 6^4 combinations of six core pieces; non-trivial = the '
         'static view itself was reached and either answered 200/301 or the path contains a traversal-significant '
@@ -33,13 +34,16 @@ ASSUMPTIONS = [
     'no conditional request headers (If-*, Range); asset overrides not configured',
 ]
 TRUSTED = [
-    'harness/c16/translate.py: Python ast -> Gallina translator for nine functions of static.py (the seven core functions, '
-    'add_slash_redirect, _compile_content_encodings; control-flow '
+    'harness/c16/translate.py: Python ast -> Gallina translator for ten functions of static.py (the seven core functions, '
+    'add_slash_redirect, _compile_content_encodings, __init__ as a record of its attribute stores) and traversal.split_path_info; control-flow '
     'rules + primitive table, fail closed; stored fallback translation gen_fallback.json when it refuses)',
     'hand-written reference model coq/Model/C16.v (the generated program is proved equal to it); for what is not translated '
-    '-- FileResponse, traversal_path_info/split_path_info/decode_path_info, the *subpath / {subpath:.*} route regex, '
+    '-- FileResponse, traversal_path_info/decode_path_info, the *subpath / {subpath:.*} / {subpath} route regex, '
+    'asset.resolve_asset_spec, Configurator._make_spec, StaticURLInfo.add (the configuration-time model configure / view_root), '
     'ResourceTreeTraverser.__call__ (which splitter it applies to a str subpath and the @@ view selector are regenerated '
-    'facts; the rest is a masked pin), __init__, _add_vary -- it is tied by shape pins and regenerated constants',
+    'facts; the rest is a masked pin), _add_vary -- it is tied by shape pins and regenerated constants',
+    'which package creates the view (caller_package(): a stack-depth lookup) is an input of the model stated by the harness; '
+    'the world has views and Configurators created by modules of other packages so that a mis-resolution is observed',
     'coq/Lib/C16Posix.v model of posixpath.join/normpath and of lexical path resolution by the OS; Lib/Utf8 (strict '
     'UTF-8), Lib/Percent (unquote, quote) -- validated by this correspondence run, not verified against CPython',
     'oracle inputs taken from the real libraries per case: directory listing (os.walk/os.stat), mimetypes.encodings_map, '
@@ -49,18 +53,21 @@ TRUSTED = [
 ]
 TECHNIQUE = ('Coq proof on a hand-written Gallina reference model (path pipeline + abstract file system with an access '
              'trace); the core of static.py (_secure_path, _contains_invalid_element_char, static_view.get_resource_name / '
-             'find_resource_path / get_possible_files / find_best_match / __call__ / add_slash_redirect, '
-             '_compile_content_encodings) is re-translated from the source on every '
+             'find_resource_path / get_possible_files / find_best_match / __call__ / add_slash_redirect / __init__, '
+             '_compile_content_encodings, traversal.split_path_info) is re-translated from the source on every '
              'run by a fail-closed Python-ast -> Gallina translator (control flow mechanically, leaves through a primitive '
              'table) and proved equal to the model; regenerated constants; extracted-model differential correspondence on a '
              'real directory tree, including the exact sequence of os.stat/open calls')
-LEVEL_TEXT = ('Machine-checked theorems for every request sequence, every mounting (six: the four of round 1-4, a route with a '
-              '{subpath:.*} placeholder, a named view reached by traversal), both kinds of root, every file system, any '
+LEVEL_TEXT = ('Machine-checked theorems for every request sequence, every mounting (seven: the four of round 1-4, a route with a '
+              '{subpath:.*} or default {subpath} placeholder, a named view reached by traversal, also below a virtual root), both kinds of root, every file system, any '
               'number of view instances: _secure_path accepts exactly tuples of plain NUL-free names; every path handed to '
               'the file system is the root or lies component-wise beneath it; every response conforms to the declarative '
               'specification (designated file, index, add-slash redirect with its Location, 404, smallest acceptable variant '
               'labelled with its encoding); every 200 answer after ANY history of the instance is a smallest variant acceptable '
-              'to the client of that request (C16_variant_acceptable_history); the filemap never changes an answer.  Nine functions of static.py are '
+              'to the client of that request (C16_variant_acceptable_history); the filemap never changes an answer.  Configuration time: '
+              'for every form of root_dir / path (absolute, pkg:dir, relative to package_name= or to the creating package) and both ways of '
+              'creating the view, the root of the instance the code builds is the designated directory, and containment / conformance hold '
+              'against it (C16_configured_root, C16_containment_configured, C16_serves_designated_configured).  Ten functions of static.py and traversal.split_path_info are '
               'translated from the current source on every run and proved equal to the reference model (C16_gen_*_is_model), '
               'and the property theorems are restated about the regenerated program (C16_gen_call_contained / _conform / '
               '_transparent, C16_gen_secure_path_spec).  The remaining tie is regenerated constants, shape pins of the '
@@ -69,8 +76,8 @@ LEVEL_TEXT = ('Machine-checked theorems for every request sequence, every mounti
               'CPython on all 2-byte, (nearly) all 3-byte and structured 4-byte sequences.')
 LEVEL_NOTE = ('Trusted: Coq kernel; the translator (harness/c16/translate.py: its control-flow rules and its primitive table of '
               'about 40 entries, each a claim about Python / os.path / pkg_resources / WebOb / Pyramid semantics); the '
-              'hand-written model of what is not translated (router, traversal, FileResponse, __init__, _add_vary -- '
-              'shape-pinned); posixpath/UTF-8/percent models; Python harness and '
+              'hand-written model of what is not translated (router, traverser, FileResponse, resolve_asset_spec, _make_spec, '
+              'StaticURLInfo.add, _add_vary -- shape-pinned); posixpath/UTF-8/percent models; Python harness and '
               'oracles.  Which function static_view applies to request.path_info, which function the traverser applies to a '
               '{subpath} string, the view selector, the route remainder regex and the per-instance filemap are regenerated '
               'facts; C16_facts_ok / C16_traverser_facts_ok / C16_filemap_per_instance require the repaired values.')
@@ -144,8 +151,8 @@ def make_config(**kw):
     return Configurator(**kw)
 '''
 SCRIPTS_FILES = {'pserve.py': 9, 'common.py': 6, 'index.html': 5, 'notes.txt': 4}
-MOUNTS = ['route', 'catchall', 'view', 'subpath', 'placeholder', 'traversal']
-ROUTED = ('route', 'catchall', 'placeholder')          # mountings whose path goes through a compiled route regex
+MOUNTS = ['route', 'catchall', 'view', 'subpath', 'placeholder', 'traversal', 'segment']
+ROUTED = ('route', 'catchall', 'placeholder', 'segment')          # mountings whose path goes through a compiled route regex
 ENC_SETS = [[], ['gzip'], ['gzip', 'br'], ['br', 'gzip'], ['gzip', 'compress', 'bzip2', 'xz', 'br']]
 AE_VALUES = [None, '', 'gzip', 'br', 'gzip, br', 'br, gzip;q=0.5', 'gzip;q=0', '*', '*;q=0', 'identity', 'identity;q=0',
              'identity;q=0, gzip', 'compress, gzip', 'deflate', 'gzip;;q=1', 'GZIP', 'x-gzip']
@@ -311,6 +318,8 @@ PREFIXES = {'route': ['/static/'] * 12 + ['/static', '/', '/other/', '/static//'
             # add_route('/static/{subpath:.*}') + static_view(use_subpath=True): the traverser splits the matched STRING
             'placeholder': ['/static/'] * 12 + ['/static', '/', '/other/', '/static//', '//static/', '/static/../static/',
                                                 '/Static/', '/%73tatic/', '/static%2f', '', 'static/'],
+            # add_route('/static/{subpath}'): the default placeholder regex [^/]+ -- one non-empty piece without '/'
+            'segment': ['/static/'] * 12 + ['/static', '/', '/other/', '/static//', '/Static/', '/%73tatic/', '/static%2f', ''],
             # add_view(static_view(use_subpath=True), name='static'), no route: traversal finds the view name
             'traversal': ['/static/'] * 10 + ['/@@static/'] * 3 + ['/static', '/', '/other/', '/static//', '//static/',
                                                                   '/static/../static/', '/other/../static/', '/./static/',
@@ -331,7 +340,17 @@ REAL_PATHS = ['', 'index.html', 'file.txt', 'file.txt', 'big.css', 'same.js', 'o
               'dirindex/index.html', 'vardir.txt.gz', 'pserve.py', 'common.py', 'notes.txt',
               '%c3%83%c2%a9.txt', '%c3%a9.txt', '%e2%82%ac.txt', 'sub/%c3%a9.txt']
 MOUNT_PREFIX = {'route': '/static/', 'catchall': '/', 'view': '/', 'subpath': '/', 'placeholder': '/static/',
-                'traversal': '/static/'}
+                'traversal': '/static/', 'segment': '/static/'}
+# HTTP_X_VHM_ROOT values for the traversal mounting (a WSGI str set by the front-end proxy; NOT percent-decoded): the
+# virtual root's segments come first, so its first segment is the view name and the others lead below the root
+VROOTS = ['/static', '/static', '/static/', '/static/sub', '/static/sub', '/@@static', '/static/docs.v1', '/other', '', '/',
+          '/static/..', '/static/../static', '/%73tatic', '/static/\xc3\xa9', '\xff', '/static/\xc3', '//static//sub/']
+# single pieces for the '{subpath}' mounting (no '/')
+SEGMENT_PIECES = ['file.txt', 'index.html', 'sub', 'noindex', 'big.css', 'same.js', 'only.txt', 'a%20b.txt', '%c3%a9.txt',
+                  '%c3%83%c2%a9.txt', '%e2%82%ac.txt', 'back%5cslash.txt', '...', '..a', '%252e%252e', 'nl%0a', '..', '.',
+                  '%2e%2e', '%2e', 'sub%2fx.css', '..%2fsentinel.txt', '%2e%2e%2fsentinel.txt', 'sentinel.txt', '%00',
+                  'file.txt%00', '%0a', 'file.txt%0a', '\\', '..%5csentinel.txt', 'docs.v1', 'vardir.txt', 'dirindex', '%ff',
+                  'home.htm', 'nothere', '%c0%ae%c0%ae', '@@x', 'file.txt.gz']
 
 
 # ---- Unicode look-alikes: text that is NOT '.', '..', '/', '\\' or an existing name, but becomes one under a Unicode
@@ -466,7 +485,7 @@ SUB_ELEMS = ['..', '.', '', 'a/b', '../sentinel.txt', 'sub/x.css', '/etc/passwd'
 
 def gen_case(rng):
     mount = rng.choice(['route', 'route', 'route', 'catchall', 'catchall', 'view', 'view', 'subpath', 'subpath',
-                        'placeholder', 'placeholder', 'traversal', 'traversal'])
+                        'placeholder', 'placeholder', 'traversal', 'traversal', 'segment'])
     root = rng.choice(['fs'] * 6 + ['pkg'] * 6 + [k for k in ROOTS if k not in ('fs-missing', 'fs-file')] * 2 + list(ROOTS))
     case = {'mount': mount, 'root': root, 'path': _gen_path(rng, mount), 'subpath': [], 'qs': rng.choice(['', '', '', 'a=1', 'x=%2f&y']),
             'ae': rng.choice(AE_VALUES) if rng.random() < 0.6 else None,
@@ -484,6 +503,12 @@ def gen_case(rng):
             case['path'] = '/d/' if rel.endswith('/') else '/d'
         else:
             case['path'] = MOUNT_PREFIX[mount] + rel
+    if mount == 'segment' and rng.random() < 0.7:
+        case['path'] = '/static/' + rng.choice(SEGMENT_PIECES) + ('/' if rng.random() < 0.1 else '')
+    if mount == 'traversal' and rng.random() < 0.3:   # a virtual root announced by the proxy
+        case['vroot'] = rng.choice(VROOTS)
+        if case['path'].startswith('/static/') and rng.random() < 0.8:
+            case['path'] = case['path'][len('/static'):]
     if rng.random() < 0.15:                       # the application is mounted below a SCRIPT_NAME (deployment-level)
         case['script'] = rng.choice(SCRIPTS)
     case['pre'] = []
@@ -567,6 +592,55 @@ def _gen_subpath(rng):
     return [rng.choice(pool) for _ in range(k)]
 
 
+DIR_TARGETS = ['sub', 'sub/deep', 'docs.v1', 'docs.v1/img.d', 'noindex', 'dirindex', '']
+FILE_TARGETS = ['file.txt', 'sub/x.css', 'index.html', 'big.css']
+
+
+def _spellings(mount, rel):
+    """Different request paths with the same normalised segments (with and without the trailing slash)."""
+    pre = MOUNT_PREFIX[mount]
+    out = [pre + rel, pre + rel + '/', pre + 'zz/../' + rel, pre + './' + rel + '/', pre + rel + '//', pre + '/' + rel,
+           pre + rel + '/.', pre + rel + '/zz/..', pre + rel + '/zz/../']
+    if mount == 'segment':
+        out = [pre + rel, pre + rel + '/']
+    return out
+
+
+def respelled_histories(rng=None, limit=None, primary_only=False):
+    """One view instance asked for the SAME normalised path in different spellings, in both orders: whatever the instance
+    remembers from the first request must not change the second answer (index file vs add-slash redirect, query string)."""
+    out = []
+    base = {'root': 'fs', 'subpath': [], 'qs': '', 'ae': None, 'encs': [], 'index': 'index.html', 'reload': False, 'pre': []}
+    for mount in MOUNTS:
+        for rel in DIR_TARGETS + FILE_TARGETS:
+            if mount == 'segment' and '/' in rel:
+                continue
+            if mount == 'subpath':
+                forms = [('/d', rel), ('/d/', rel)]
+                pairs = [(a, b) for a in forms for b in forms if a != b]
+            else:
+                sp = _spellings(mount, rel)
+                pairs = [(sp[1], sp[0]), (sp[0], sp[1])]
+                if not primary_only:
+                    pairs += [(a, b) for a in sp[:2] for b in sp[2:]] + [(b, a) for a in sp[:2] for b in sp[2:]]
+            for a, b in pairs:
+                for root in ('fs', 'pkg'):
+                    d = dict(base)
+                    if mount == 'subpath':
+                        sub = [x for x in rel.split('/') if x]
+                        d.update(mount=mount, root=root, path=b[0], subpath=sub,
+                                 pre=[{'path': a[0], 'subpath': list(sub), 'qs': '', 'ae': None}])
+                    else:
+                        d.update(mount=mount, root=root, path=b, pre=[{'path': a, 'subpath': [], 'qs': '', 'ae': None}])
+                    out.append(d)
+                    e = dict(d)
+                    e['qs'] = 'a=1'
+                    out.append(e)
+    if rng is not None and limit is not None and len(out) > limit:
+        out = rng.sample(out, limit)
+    return out
+
+
 def core_cases():
     out = []
     import itertools
@@ -618,6 +692,10 @@ def generate(rng, tier, n):
         yield d
     for _ in range(max(0, n - len(core) - len(core[::7]))):
         yield gen_case(rng)
+    # appended AFTER the random stream (which it therefore does not perturb): histories of one instance over spellings
+    # of one normalised path
+    for c in respelled_histories(rng, max(40, n // 25)):
+        yield c
 
 
 def _valid_req(mount, r):
@@ -650,6 +728,9 @@ def valid(case):
                 and all(isinstance(b, int) and 0 <= b < 256 for b in case['prefix'])
         if case['mount'] not in MOUNTS or case['root'] not in ROOTS:
             return False
+        vr = case.get('vroot')
+        if vr is not None and (case['mount'] != 'traversal' or not isinstance(vr, str) or any(ord(ch) > 255 for ch in vr)):
+            return False
         sc = case.get('script', '')
         if not isinstance(sc, str) or (sc and (not sc.startswith('/') or sc.endswith('/'))) \
                 or any(ord(ch) > 255 or ord(ch) < 32 for ch in sc):
@@ -680,7 +761,7 @@ def valid(case):
 
 
 # ------------------------------------------------------------------ oracles and wire
-def _environ(case, script=''):
+def _environ(case, script='', vroot=None):
     pi = _pi(case)       # the WSGI server's job
     env = {'REQUEST_METHOD': 'GET', 'SCRIPT_NAME': script, 'PATH_INFO': pi, 'QUERY_STRING': case['qs'],
            'SERVER_NAME': 'localhost', 'SERVER_PORT': '80', 'SERVER_PROTOCOL': 'HTTP/1.1',
@@ -688,6 +769,8 @@ def _environ(case, script=''):
            'wsgi.errors': io.StringIO(), 'wsgi.multithread': False, 'wsgi.multiprocess': False, 'wsgi.run_once': False}
     if case['ae'] is not None:
         env['HTTP_ACCEPT_ENCODING'] = case['ae']
+    if vroot is not None:
+        env['HTTP_X_VHM_ROOT'] = vroot
     return env
 
 
@@ -744,14 +827,22 @@ def _inst_of(case, r):
     return _insts(case)[r.get('inst', 0)]
 
 
-def _docroot(case):
-    """What static_view keeps as self.docroot (resolve_asset_spec / StaticURLInfo.add are plain string surgery)."""
-    is_pkg, spec, pname = ROOTS[case['root']]
-    if case['mount'] == 'route' and not spec.endswith('/'):
-        spec = spec + '/'          # StaticURLInfo.add appends the separator
-    if is_pkg and ':' in spec:
-        spec = spec.split(':', 1)[1]
-    return is_pkg, spec
+HARNESS_PKG = __name__.rsplit('.', 1)[0]          # the package of this module: what caller_package() finds for views we create
+
+
+def _setup(ic):
+    """What was WRITTEN at configuration time: (root_dir / path as written, package_name= or None, package of the module
+    that creates the view / of the Configurator).  Turning this into self.package_name / self.docroot is the model's job
+    (Model/C16.v: configure = static_view.__init__ + resolve_asset_spec (+ _make_spec + StaticURLInfo.add))."""
+    is_pkg, spec, pname = ROOTS[ic['root']]
+    if ic['root'] in CALLER:
+        caller = CALLER[ic['root']]
+    elif ic['mount'] == 'route' and pname:
+        caller = pname                             # Configurator(package=pname): add_static_view has no package_name=
+    else:
+        caller = HARNESS_PKG
+    kw = [] if (pname is None or ic['mount'] == 'route') else [pname]
+    return spec, kw, caller
 
 
 def to_wire(case):
@@ -760,11 +851,13 @@ def to_wire(case):
     if _is_utf8(case):
         return [1, bytes(case['prefix']), case['n']]
     cfgs = []
+    mods = [[k, v] for k, v in sorted(_state['modpath'].items())]
+    vroot = case.get('vroot')
     for ic in _insts(case):
-        is_pkg, docroot = _docroot(ic)
-        cfgs.append([MOUNTS.index(ic['mount']), 'static', is_pkg, docroot, _state['modpath'][_root_pkg(ic['root'])],
+        spec, kw, caller = _setup(ic)
+        cfgs.append([MOUNTS.index(ic['mount']), 'static', spec, kw, caller, mods,
                      ic['index'], list(ic['encs']), _state['encmap'], _app_url(case.get('script', '')), _state['safe'],
-                     ic['reload']])
+                     ic['reload'], [] if vroot is None else [vroot]])
     reqs = []
     for r in _requests(case):
         truthy, ok = _ae_oracle(r['ae'])
@@ -846,6 +939,12 @@ def _get_app(case):
         config.add_route('ph', '/static/{subpath:.*}')
         config.add_view(make_view(spec, use_subpath=True, **kw), route_name='ph')
         app = ('wsgi', config.make_wsgi_app())
+    elif case['mount'] == 'segment':
+        # '{subpath}' with the default regex [^/]+
+        config = Configurator()
+        config.add_route('seg', '/static/{subpath}')
+        config.add_view(make_view(spec, use_subpath=True, **kw), route_name='seg')
+        app = ('wsgi', config.make_wsgi_app())
     elif case['mount'] == 'traversal':
         # no route at all: the default root factory's resource has no children, traversal stops at the first
         # segment, which is the view name; the remaining segments are request.subpath
@@ -898,8 +997,8 @@ def _call_wsgi(app, env):
     return got['status'], got['headers'], body
 
 
-def _run_one(kind, app, mount, r, script=''):
-    env = _environ(r, script)
+def _run_one(kind, app, mount, r, script='', vroot=None):
+    env = _environ(r, script, vroot)
     with _Trace() as tr:
         try:
             if kind == 'wsgi':
@@ -945,7 +1044,7 @@ def run_impl(case):
     outs = []
     for r in _requests(case):
         kind, app = apps[r.get('inst', 0)]
-        outs.append(_run_one(kind, app, case['mount'], r, case.get('script', '')))
+        outs.append(_run_one(kind, app, case['mount'], r, case.get('script', ''), case.get('vroot')))
     try:
         sec = _state['secure'](tuple(case['subpath']))
         sec = [] if sec is None else [sec]
@@ -1138,6 +1237,8 @@ def kinds(case, obs):
             k.append('piece-' + name)
     if case.get('script'):
         k.append('script-name')
+    if case.get('vroot') is not None:
+        k.append('virtual-root')
     if case['ae'] is not None:
         k.append('ae-present')
     if case['encs']:
@@ -1199,12 +1300,14 @@ def targeted(broken, disagreements, rng):
                 else:
                     d.update(mount=mount, root=root, path=MOUNT_PREFIX[mount] + _pct(j))
                 out.append(d)
-    for mount, pre in (('route', '/static/'), ('catchall', '/'), ('placeholder', '/static/'), ('traversal', '/static/')):
+    for mount, pre in (('route', '/static/'), ('catchall', '/'), ('placeholder', '/static/'), ('traversal', '/static/'),
+                       ('segment', '/static/')):
         for tail in ('file.txt%0a', 'file.txt\n', 'sub/%0a', 'sub%0a', '%0afile.txt', 'sub/x.css%0a', 'index.html%0a', '%0a',
                      'sub%0a/x.css', 'nl%0a', 'nl%0a%0a'):
             d = dict(base)
             d.update(mount=mount, path=pre + tail)
             out.append(d)
+    out += respelled_histories(primary_only=True)
     # non-ASCII names (and names that are the UTF-8-read-as-latin-1 form of another name) in every mounting and root kind:
     # a second decoding anywhere between the server and the view serves the wrong file or raises
     for mount in MOUNTS:
